@@ -130,6 +130,8 @@ func (a eNAct) MarshalJSON() ([]byte, error) {
 		m["m"] = a.M
 	case "ctlAuditLogParts":
 		m["k"] = a.K
+	case "setenv":
+		m["k"], m["v"] = a.K, a.V
 	}
 	return json.Marshal(m)
 }
@@ -150,6 +152,8 @@ func (a *eNAct) UnmarshalJSON(b []byte) error {
 		a.M = s("m")
 	case "ctlAuditLogParts":
 		a.K = s("k")
+	case "setenv":
+		a.K, a.V = s("k"), s("v")
 	case "ctlRemoveById":
 		a.ID = n("id")
 	case "ctlRemoveByRange":
@@ -205,6 +209,8 @@ func renderNAct(a eNAct) string {
 		return "ctl:auditEngine=" + a.M
 	case "ctlAuditLogParts":
 		return "ctl:auditLogParts=" + gen.Unfield(a.K)
+	case "setenv":
+		return "setenv:'" + gen.Unfield(a.K) + "=" + gen.Unfield(a.V) + "'"
 	case "ctlRuleEngine":
 		return "ctl:ruleEngine=" + a.M
 	case "ctlRemoveById":
@@ -573,6 +579,10 @@ func genLink(r *gen.R, p engProfile, first, prevDet bool, ruleIDs []int) (eLink,
 		} else if r.Chance(0.1) {
 			t.V = r.Pick(eReqLineVars...)
 			t.K = "-"
+		} else if p.acct > 0 && r.Chance(0.12) {
+			// the ENV collection by key (whole-collection reads would show the process environment's absence only)
+			t.V = "ENV"
+			t.K = gen.Field(r.Pick("VERIF_E1", "VERIF_E2", "verif_e1"))
 		} else {
 			t.V = eMapVar[r.Intn(len(eMapVar))]
 			if r.Chance(0.55) {
@@ -682,6 +692,14 @@ func genNAct(r *gen.R, p engProfile, det bool, ruleIDs []int) eNAct {
 			}
 			return eNAct{N: "ctlRemoveTargetById", Lo: id, Hi: id, Var: r.Pick("ARGS_GET", "ARGS", "ARGS_POST", "REQUEST_HEADERS", "TX"), K: k}
 		}
+	}
+	if p.acct > 0 && r.Chance(0.1) {
+		// setenv: the transaction's ENV collection (names private to the harness: they also land in the process environment)
+		v := r.Pick("1", "x", "on")
+		if det {
+			v = r.Pick("1", "x", "%{matched_var}", "%{tx.s}v", "%{args_get.a}e")
+		}
+		return eNAct{N: "setenv", K: gen.Field(r.Pick("VERIF_E1", "VERIF_E2", "verif_e1")), V: gen.Field(v)}
 	}
 	k := r.Pick(eTxKeys...)
 	if det && r.Chance(0.12) {
@@ -1209,7 +1227,7 @@ func genEngCase(r *gen.R, p engProfile) *eCase {
 
 var engProfiles = map[string]engProfile{
 	"":      {},
-	"flow":  {flow: 0.3, chains: 0.1, disr: 0.1, allows: 0.2, dirs: 0.3},
+	"flow":  {flow: 0.3, chains: 0.1, disr: 0.1, allows: 0.2, dirs: 0.3, ctl: 0.3},
 	"api":   {disr: 0.35, apiOrder: 0.35, ctl: 0.1, modeSwitch: 0.2},
 	"acct":  {acct: 0.4, chains: 0.2},
 	"ctl":   {ctl: 0.35, rxkeys: 0.15, dirs: 0.45, flow: 0.15},
